@@ -43,8 +43,10 @@ CLAIMED.update({
         'technique': 'static analysis: finite-domain constant propagation over MIR; cross-table consistency of sibling decision tables',
         'level': ('Static, exhaustive per join type: a join operator (Hash, NLJ, SMJ, PWMJ) may declare a side order-preserving '
                   'only if it is the probe side of that operator and the operator appends no rows of that type after the probe phase '
-                  '(its own tables); RepartitionExec declares order only under preserve_order or one input partition. Equivalence '
-                  'classes, constants, monotonicity and partitioning keys are value-dependent and not decided.'),
+                  '(its own tables); RepartitionExec declares order only under preserve_order or one input partition; the function joining the '
+                  'equivalence groups of two join children does not carry the classes of a side over verbatim (constants kept) for a join type that can '
+                  'NULL-extend that side (20 (join type, side) pairs against the reference model). Equivalence '
+                  'classes, monotonicity and partitioning keys are value-dependent and not decided.'),
     },
     'C30': {
         'technique': 'static analysis: finite-domain constant propagation over MIR + reference join model; logical/physical sibling tables; CFG extraction of unguarded match arms (sibling agreement of two tables over Expr)',
